@@ -177,12 +177,12 @@ def events_of(out):
                 if len(segs) > 1:      # noconn_array_bundle: a no-connect on a bundle-valued port of an instance array, one signal per member
                     site = ["noconn_member", t["ncname"], t["inst"], t["port"], segs[1:]]
             elif kind == "bundle":
-                site, cls = ["bundle", t["bundle"], segs[1] if len(segs) == 2 else "?"], "bundle"
+                site, cls = ["bundle", t["bundle"], "_".join(segs[1:]) if len(segs) >= 2 else "?"], "bundle"
             elif kind == "arrays":
                 ok = len(segs) == 2 and segs[1].isdigit() and segs[1].isascii()
                 site, cls = ["array", segs[0] if segs else "?", int(segs[1]) if ok else 0], "array"
             elif kind == "pair":
-                site, cls = ["pair", t["ibundle"], segs[1] if len(segs) == 2 else "?"], "pair"
+                site, cls = ["pair", t["ibundle"], "_".join(segs[1:]) if len(segs) >= 2 else "?"], "pair"
             else:
                 continue
             evs.append((t["mod"], site, e, cls))
